@@ -184,6 +184,7 @@ pub fn run(ctx: &Ctx) -> Report {
         }
     });
     rep.merge(r);
+    rep.merge(super::mega::run(ctx, "C08", 1500, 60000));
     if ctx.strict() {
         rep.require("parameters_compared", 10_000);
         rep.require("conversions_compared", 5000);
